@@ -590,7 +590,10 @@ func (w *World) doByz() {
 	// invalid entry legitimately leaves a hole, and the rest of the world assumes closed logs
 	dst := w.clone(rcv, true)
 	dstSet := copySet(rcv.Set)
-	if anyBad && r.Choose("byz-into-real-node", 2) == 0 {
+	if !w.P.Check["C06"] && !anyBad {
+		return // outside the C06 check only merges that must be refused are of interest
+	}
+	if anyBad && (r.Choose("byz-into-real-node", 2) == 0 || !w.P.Check["C06"]) {
 		// a merge that must be refused can target the replica itself: it has to leave it untouched,
 		// and the rest of the run continues on whatever it really left
 		dst = rcv.Log
@@ -605,16 +608,16 @@ func (w *World) doByz() {
 	}
 	if anyBad {
 		if err == nil {
-			r.Violate("C06:admitted-invalid", "merge admitted a batch of %d entries containing invalid entries %v", len(cand), badNames)
+			r.Violate(w.P.Prop+":admitted-invalid", "merge admitted a batch of %d entries containing invalid entries %v", len(cand), badNames)
 		}
 		_, strict := w.M.Linear(rcv.Set, w.ByHash)
 		if d := w.sameObs(before, w.observe(dst), strict); d != "" || dst.Len() != lenBefore {
-			r.Violate("C06:not-atomic", "refused merge (bad entries %v in a batch of %d) changed the log: %s", badNames, len(cand), d)
+			r.Violate(w.P.Prop+":not-atomic", "refused merge (bad entries %v in a batch of %d) changed the log: %s", badNames, len(cand), d)
 		}
 		return
 	}
 	if err != nil {
-		r.Violate("C06:refused-valid", "merge of %d valid entries was refused: %v (tampered but not candidates: %v)", len(cand), err, badNames)
+		r.Violate(w.P.Prop+":refused-valid", "merge of %d valid entries was refused: %v (tampered but not candidates: %v)", len(cand), err, badNames)
 	}
 	for _, h := range cand {
 		dstSet[h] = true
@@ -622,10 +625,10 @@ func (w *World) doByz() {
 	// an accepted merge must have added exactly the candidates: nothing that was not verified
 	// may become observable, not even as a head
 	if got := sortedKeys(hashSet(dst.GetEntries())); joinS(got) != joinS(sortedKeys(dstSet)) {
-		r.Violate("C06:merge-result", "accepted merge left %d entries, expected %d", len(got), len(dstSet))
+		r.Violate(w.P.Prop+":merge-result", "accepted merge left %d entries, expected %d", len(got), len(dstSet))
 	}
 	if hs, mh := sortedCopy(hashSeq(dst.Heads())), w.M.Heads(dstSet); joinS(hs) != joinS(mh) {
-		r.Violate("C06:unverified-head", "accepted merge left heads %v, the verified entries' heads are %v (tampered non-candidates: %v)", w.M.Names(hs), w.M.Names(mh), badNames)
+		r.Violate(w.P.Prop+":unverified-head", "accepted merge left heads %v, the verified entries' heads are %v (tampered non-candidates: %v)", w.M.Names(hs), w.M.Names(mh), badNames)
 	}
 }
 
@@ -839,7 +842,6 @@ func (w *World) afterAppend(n *Node, e iface.IPFSLogEntry, me *MEntry) {
 	}
 }
 
-
 // appendWithDiskError: the block write of this append fails (disk full / I/O error).
 func (w *World) appendWithDiskError(n *Node, pl []byte, pc int) {
 	r := w.R
@@ -869,6 +871,31 @@ func (w *World) doRefused() {
 		return
 	}
 	r := w.R
+	if src := w.pickUp("refuse-src"); r.Choose("refuse-what", 2) == 0 && src != nil && src != n {
+		// the replica's controller refuses a merge from a live peer that has something new
+		fresh := false
+		for h := range src.Set {
+			if !n.Set[h] {
+				fresh = true
+			}
+		}
+		if fresh && !w.blocked(n.Idx, src.Idx) {
+			before := w.observe(n.Log)
+			n.Pol.kind, n.Pol.nth = 3, n.Pol.calls.Load()+1
+			_, err := n.Log.Join(src.Log, -1)
+			n.Pol.kind = 0
+			r.Fault("merge-refused")
+			r.Logf("refused-merge n%d<-n%d err=%v", n.Idx, src.Idx, err != nil)
+			if err == nil {
+				r.Violate(w.P.Prop+":admitted-denied", "merge succeeded although the log's access controller denies one of the new entries")
+			}
+			_, strict := w.M.Linear(n.Set, w.ByHash)
+			if d := w.sameObs(before, w.observe(n.Log), strict); d != "" {
+				r.Violate(w.P.Prop+":not-atomic", "a refused merge changed the log: %s", d)
+			}
+			return
+		}
+	}
 	pl := w.payload()
 	before := w.observe(n.Log)
 	n.Pol.kind, n.Pol.prefix = 2, pl
